@@ -112,6 +112,22 @@ func runC12(c *runCtx) {
 			base = g.Statement()
 		}
 		base = strings.ReplaceAll(base, ";", "")
+		if c.rng.Chance(18) {
+			// a statement of the clause catalogue cut off after any of its tokens (every optional clause of every statement
+			// kind, cut in the middle): what the failing production had consumed stays inside the statement
+			full := strings.Fields(c.rng.Pick(c12CutCatalogue))
+			if len(full) > 2 {
+				bad := strings.Join(full[:1+c.rng.Intn(len(full)-1)], " ")
+				conv := convOf(bad)
+				if conv != nil && len(conv) >= 2 && !containsStartAfterFirst(conv) {
+					if _, err := gosqlx.Parse(bad); err != nil {
+						res.stat("segment-cut-catalogue-statement")
+						return seg{bad, false, ""}, true
+					}
+				}
+			}
+			return seg{}, false
+		}
 		if c.rng.Chance(8) {
 			// a statement that is wrong from its first token on (no statement begins like this)
 			bad := c.rng.Pick([]string{"FOO bar", ") x", "42", "x y z", "'text' , 1", "= 1", "bar ( 1 , 2 )", "* FROM t", ", a", "NULL"})
@@ -462,4 +478,28 @@ func runC12(c *runCtx) {
 			res.fail("recovery-nontermination", "recovery parsing did not return on token soup: "+a, map[string]any{"input_prefix": truncate(in, 60), "len": len(in)}, nil)
 		}
 	}
+}
+
+// c12CutCatalogue: statements that spell out the optional clauses of every statement kind (no statement keyword after the first token)
+var c12CutCatalogue = []string{
+	"CREATE TABLE IF NOT EXISTS t ( a INT PRIMARY KEY , b TEXT NOT NULL DEFAULT 'x' , CHECK ( a > 0 ) )",
+	"CREATE UNIQUE INDEX IF NOT EXISTS i ON t USING btree ( a , b DESC NULLS LAST ) WHERE a > 0",
+	"CREATE MATERIALIZED VIEW IF NOT EXISTS m ( x ) AS ( a ) ",
+	"CREATE OR REPLACE TEMPORARY VIEW IF NOT EXISTS v ( x , y ) AS ( b )",
+	"DROP TABLE IF EXISTS t , u CASCADE",
+	"DROP INDEX IF EXISTS i",
+	"ALTER TABLE IF EXISTS t ADD COLUMN IF NOT EXISTS c INT NOT NULL DEFAULT 0",
+	"ALTER TABLE t RENAME COLUMN a TO b",
+	"TRUNCATE TABLE t , u RESTART IDENTITY CASCADE",
+	"INSERT INTO t ( a , b ) VALUES ( 1 , 2 ) , ( 3 , 4 ) ON CONFLICT ( a ) DO NOTHING RETURNING a , b",
+	"INSERT INTO t ( a ) VALUES ( 1 ) ON DUPLICATE KEY x",
+	"DELETE FROM t USING u WHERE t.i = u.i RETURNING t.a",
+	"MERGE INTO t USING u ON t.i = u.i WHEN MATCHED AND u.x > 1 THEN x WHEN NOT MATCHED THEN y",
+	"SELECT DISTINCT ON ( a ) a , b AS x FROM t AS q LEFT OUTER JOIN u USING ( i ) WHERE a BETWEEN 1 AND 2 GROUP BY ROLLUP ( a , b ) HAVING COUNT ( * ) > 1 ORDER BY a DESC NULLS FIRST LIMIT 5 OFFSET 2",
+	"SELECT a FROM t ORDER BY a FETCH FIRST 3 ROWS ONLY FOR UPDATE OF t SKIP LOCKED",
+	"SELECT SUM ( a ) FILTER ( WHERE b > 0 ) OVER ( PARTITION BY c ORDER BY d ROWS BETWEEN UNBOUNDED PRECEDING AND CURRENT ROW ) FROM t WINDOW w AS ( ORDER BY e )",
+	"SELECT CASE a WHEN 1 THEN 'x' ELSE 'y' END , CAST ( b AS VARCHAR ( 10 ) ) , c :: int , d [ 1 ] , EXTRACT ( YEAR FROM e ) , INTERVAL '1 day' FROM t",
+	"SELECT a FROM t WHERE b IS NOT DISTINCT FROM c AND d NOT LIKE 'x%' ESCAPE '!' AND e NOT IN ( 1 , 2 ) AND f IS NOT NULL",
+	"SELECT a FROM t NATURAL JOIN u CROSS JOIN v FULL OUTER JOIN w ON w.i = t.i , LATERAL ( x ) z",
+	"SHOW TABLES FROM db LIKE 'x%'", "DESCRIBE t", "EXPLAIN ANALYZE x", "REFRESH MATERIALIZED VIEW CONCURRENTLY m", "GRANT x ON t TO u", "REPLACE INTO t ( a ) VALUES ( 1 )",
 }
